@@ -143,6 +143,10 @@ def input_value(n, edges, oneof, i, depth):
             for k, kind in enumerate(edges.get((i, j), [])):
                 if depth > 0:
                     inner = input_value(n, edges, oneof, j, depth - 1)
+                    if inner is None:
+                        if kind.startswith("["):
+                            return {"e%d_%d" % (j, k): []}
+                        continue  # this member cannot be given a finite value here: pick another one
                     return {"e%d_%d" % (j, k): [inner] if kind.startswith("[") else inner}
         return {"v": 1}
     v = {"v": depth}
@@ -150,7 +154,8 @@ def input_value(n, edges, oneof, i, depth):
         for k, kind in enumerate(edges.get((i, j), [])):
             key = "e%d_%d" % (j, k)
             if kind.startswith("["):
-                v[key] = [input_value(n, edges, oneof, j, depth - 1)] if depth > 0 else []
+                inner = input_value(n, edges, oneof, j, depth - 1) if depth > 0 else None
+                v[key] = [inner] if inner is not None else []
             elif kind.endswith("!"):
                 if depth <= 0:
                     return None  # cannot terminate a required by-value cycle here
@@ -159,7 +164,7 @@ def input_value(n, edges, oneof, i, depth):
                     return None
                 v[key] = inner
             else:
-                v[key] = input_value(n, edges, oneof, j, depth - 1) if depth > 0 else None
+                v[key] = input_value(n, edges, oneof, j, depth - 1) if depth > 0 else None  # nullable: None is a value
     return v
 
 
